@@ -24,6 +24,16 @@ CLAIMS = {
              'correspondence (pull counts equal on every case). Partial: bound proved outside the known-finding region',
         technique='Lean 4 proof (invariant over access traces) + model/implementation correspondence',
         ref='DESIGN.md §5 C12'),
+    'C03': dict(
+        text='Lean 4 theorems about the quoting model for ALL strings: escape_no_raw, unescape5_escape (round trip), '
+             'escape_id_iff, fastpath_sound (stated over Gen.fastPathChars, the character list extracted from '
+             'render_blocks_ on every run), forms_agree, plain_unchanged, escChar_cases, gen_escape_table; '
+             'correspondence over every code point and special-dense random strings through 21 spellings of the '
+             'insertion forms; oracle = html.escape/html.unescape',
+        note='Trusted: Lean kernel; html.escape/unescape as reference; model of the simple-form/full-path split '
+             'validated by correspondence. Bytes through the full path: known finding C03-bytes-fullpath',
+        technique='Lean 4 proof (induction on the string, table obligation regenerated from source) + correspondence',
+        ref='DESIGN.md §5 C03'),
 }
 
 NA_REASON = 'check not built yet in this round (planned, see DESIGN.md §5)'
